@@ -45,7 +45,9 @@ func newEntry(key, value []byte, valueType ValueType, seqNum uint64) *entry {
 	copy(keyCopy, key)
 
 	var valueCopy []byte
-	if value != nil {
+	if value != nil || valueType == TypeValue {
+		// A value entry always carries a non-nil (possibly empty) value;
+		// only deletion markers have a nil value
 		valueCopy = make([]byte, len(value))
 		copy(valueCopy, value)
 	}
